@@ -189,10 +189,12 @@ def gen_model(rng, profile="contact", nbody=None, integrator=None, sensors=True,
                     rng.choice([3, 3, 4, 6]), _f([rng.uniform(0.3, 1.2), 0.005, 0.0001])))
     if gate == "elliptic_condim1":
         cone_c1 = True
-    geom_types = ["sphere", "capsule", "box", "sphere", "capsule"]
-    if rng.random() < 0.35:
+    geom_types = ["sphere", "capsule", "sphere", "capsule", "sphere", "capsule"]
+    if rng.random() < (0.25 if P["contact"] else 0.6):
+        geom_types += ["box"]
+    if rng.random() < (0.15 if P["contact"] else 0.35):
         geom_types += ["ellipsoid"]
-    if rng.random() < 0.35:
+    if rng.random() < (0.15 if P["contact"] else 0.35):
         geom_types += ["cylinder"]
     nmocap = int(mocap if mocap is not None else (rng.random() < 0.25))
     for k in range(nmocap):
